@@ -80,6 +80,39 @@ check("C06", "Lean 4 theorems over the B-matrix code regenerated from crystal.py
       "interplanar angle only by the oracle; acos/sqrt domain outside admissible cells not modelled.",
       "DESIGN.md §6 C06")
 
+check("C01", "Lean 4 theorems over a hand model of the whole hkl->angles pipeline + generated get_hkl; pipeline correspondence over all 185 modes",
+      "Proved for ALL modes (C01.getPosition_guard): get_position returns a pair only if the position maps back to the requested hkl through get_hkl within 1e-3 per index and the "
+      "dictionary is get_virtual_angles of that position; get_hkl IS the first-principles forward model (C04, on generated code), so the guard is a physical statement (guard_forward_model). "
+      "Exactness: detector relation + sample relation + Bragg => forward model = hkl exactly (composition); the detector layer from qaz, used by the three-sample and reference+two-sample "
+      "branches, satisfies the detector relation exactly incl. its threshold shortcut (detFromQaz_sound). The model (Solver/*.lean, ~1200 lines mirroring calc*.py) is run against get_position on "
+      "all 185 modes (physical, special-value and degenerate requests); an independent numpy forward model checks every returned element, also inside call sequences.",
+      "Lean kernel; standard axioms; PARTIAL: exact soundness of the sample-layer branches is not proved (correspondence + oracle only); hand model tied by sampled correspondence; "
+      "numerically singular requests excluded from the model comparison (counted).",
+      "DESIGN.md §6 C01")
+
+check("C02", "Lean 4 theorems (pass-through of constrained axes through every dispatcher branch, tidy-up, read-back filter) + pipeline correspondence",
+      "Proved for ALL modes (C02.getPosition_honours_axes): every element returned by get_position carries each constrained sample/detector axis at exactly the requested value — through all 23 "
+      "dispatcher branches (passthrough_*), through the degenerate tidy-up (tidy_preserves_constrained) — and passed the read-back filter for the reference / qaz / naz constraint (filter_sound). "
+      "Correspondence over all modes incl. the two degenerate 4-circle families with the rewritten axis constrained / free / constrained to exactly 0; the oracle evaluates every constraint "
+      "as the user stated it (geometric pseudo-angles, bisect relations) on every returned element.",
+      "Lean kernel; standard axioms; PARTIAL: the bisect/omega relations are not proved (correspondence + oracle); pseudo-angle constraints hold within the filter's 1e-7 deg; hand model tied by sampled correspondence.",
+      "DESIGN.md §6 C02")
+
+check("C03", "Lean 4 theorems (root enumeration complete, detector-layer completeness, all-or-nothing) + candidate-level correspondence + round-trip oracle",
+      "Proved: asin/acos root pairs enumerate ALL solutions mod 2 pi; the detector layer from qaz returns every (delta, nu) satisfying the detector relation (detFromQaz_complete); a candidate "
+      "that is exactly consistent passes filter and guard; get_position returns the filtered list iff EVERY element passes the guard (allOrNothing). The model is compared with "
+      "__calc_hkl_to_position at candidate level on regular positions of all 185 modes; the oracle requires every regular physical position to come back (173 modes recover; the 12 naz + surface-reference modes are a recorded known finding).",
+      "Lean kernel; standard axioms; PARTIAL: branch completeness of the sample layers is not proved; regularity judged numerically; known finding C03-naz-with-surface-reference.",
+      "DESIGN.md §6 C03")
+
+check("C11", "Lean 4 no-leak calculus assembled over the whole solver model (finite-real reading) + special-value execution",
+      "Proved (C11.c11_getPosition): for every implemented mode shape, every finite input and invertible B, the model's get_position either returns a NON-EMPTY list or fails with "
+      "DiffcalcException — every asin/acos behind bound, every bound inside a try/except AssertionError or provably within [-1,1] (Cauchy-Schwarz for _calc_N / angle_between_vectors; the "
+      "beta argument is n.k_f); get_virtual_angles is total for all reference/surface vectors (virtualAngles_total); hkl=(0,0,0) and unreachable reflections map to DiffcalcException (noLeak_ttheta). "
+      "The implementation is executed on the special-value stream (multiples of 90 deg, zeros, parallel/anti-parallel vectors, non-unit vectors) and every other exception class or non-finite position is reported; str() of the calculators by the oracle.",
+      "Lean kernel; standard axioms; finite real arithmetic: inf/NaN from numpy division by exact zero cannot be exhibited by the model (covered by execution only); hand model tied by sampled correspondence.",
+      "DESIGN.md §6 C11")
+
 NOT_APPLICABLE = []   # filled below for properties without a registered check
 
 ALL = ["C%02d" % i for i in range(1, 21)]
